@@ -829,13 +829,17 @@ class Interp:
         m = re.match(r'^(.*)::((?:promoted\[\d+\])|(?:[A-Z][A-Z0-9_]*)|(?:\{constant#\d+\}))$', s)
         if m:
             prefix, last = m.group(1), m.group(2)
-            if prefix in self.prog.bodies or prefix.startswith('<') or '::' in prefix:
-                try:
-                    fn = self.resolve_static(prefix)
-                except Unmodelled:
-                    fn = None
-                if fn and (fn + '::' + last) in self.prog.bodies:
-                    return fn + '::' + last
+            # promoteds of closures: path::{closure#N}[::{closure#M}]::promoted[K] -> resolve the enclosing fn first
+            mc = re.match(r'^(.*?)((?:::\{closure#\d+\})+)$', prefix)
+            base, clos = (mc.group(1), mc.group(2)) if mc else (prefix, '')
+            for bs, cl in ((prefix, ''), (base, clos)):
+                if bs in self.prog.bodies or bs.startswith('<') or '::' in bs:
+                    try:
+                        fn = self.resolve_static(bs)
+                    except Unmodelled:
+                        fn = None
+                    if fn and (fn + cl + '::' + last) in self.prog.bodies:
+                        return fn + cl + '::' + last
             # inner constant of a generic method: X::CONST where X is an fn
             cand = [n for n in self.prog.bodies if n.endswith('::' + prefix.split('::')[-1] + '::' + last)]
             if len(cand) == 1:
